@@ -1,6 +1,6 @@
 #!/bin/bash
 # usage: try_new.sh <seed-dir-name>...   — runs the seed's own property check (whole quick tier)
-# against a scratch copy of /repo with the seed applied; appends one line per seed to /root/sweep_r5.log
+# against a scratch copy of /repo with the seed applied; appends one line per seed to ${SWEEP_LOG:-/root/sweep_r5.log}
 export TRY_REPO=${TRY_REPO:-/tmp/tryrepo}
 git -C $TRY_REPO checkout -q --detach $(git -C /repo rev-parse HEAD)
 for s in "$@"; do
@@ -9,5 +9,5 @@ for s in "$@"; do
   out=$(/verif/tools/try_mutation.sh $id /verif/seeded/$s/patch.diff 2>&1)
   en=$(date +%s)
   if echo "$out" | grep -q "^exit=1"; then r=CAUGHT; else r=MISSED; fi
-  echo "$s $r by=$id t=$((en-st))s $(echo "$out" | grep counterexample | head -1 | cut -c1-200)" | tee -a /root/sweep_r5.log
+  echo "$s $r by=$id t=$((en-st))s $(echo "$out" | grep counterexample | head -1 | cut -c1-200)" | tee -a ${SWEEP_LOG:-/root/sweep_r5.log}
 done
